@@ -412,8 +412,10 @@ class AssociationSocket:
             # Try and connect to remote at (address, port)
             #   raises OSError if connection refused
             self.socket.connect(primitive.address_info.as_tuple)
-            # Clear ae connection timeout
-            self.socket.settimeout(None)
+            # Replace the ae connection timeout with the network timeout: if no
+            #   timeout is set then recv() will block forever if the connection
+            #   is kept alive with no data sent
+            self.socket.settimeout(self.assoc.network_timeout)
 
             # Update the Association.requestor's host and port with the actual values
             conn_info = self.socket.getsockname()
@@ -752,6 +754,12 @@ class RequestHandler(BaseRequestHandler):
         # Set the thread name
         timestamp = datetime.strftime(datetime.now(), "%Y%m%d%H%M%S")
         assoc.name = f"AcceptorThread@{timestamp}"
+
+        # The accepted socket is blocking whatever the listener's timeout is:
+        #   without a timeout recv() blocks forever if the peer stops sending
+        #   part-way through a PDU
+        if self.ae.network_timeout is not None:
+            self.request.settimeout(self.ae.network_timeout)
 
         sock = AssociationSocket(assoc, client_socket=self.request)
         assoc.set_socket(sock)
